@@ -11,6 +11,8 @@ the schema round trip is now proved at full strength); what is proved below is
 the statement per component of the `Api` (schema, parameter, form field, response, security scheme,
 servers), each at full strength or `_partial` under the decidable exclusion that names the deviation,
 with a kernel-checked witness inside the exclusion and a non-vacuity example outside it.
+Document level: Props/C17Doc.lean (round trip, simple fragment), Props/C17Body.lean (both directions with body
+parameters, inline and shared, as `Api.sim`), Props/C17Form.lean (ToV3 with inline form parameters).
 -/
 import KinModel.Lemmas.C17
 import KinModel.Gen.CopyTables
